@@ -104,7 +104,7 @@ Qed.
 Lemma istep_settles : forall h os st o, R (IS h os) st -> settles (IS h os) o.
 Proof.
   intros h os st o HR.
-  destruct o as [i|i c|i c|i c|i c|i|i p|i f|i p|i n|i|i n|z n|z n|i j|m].
+  destruct o as [i|i c|i c|i c|i c|i|i p|i f|i p|i n|i|i n|z n|z n|i j|m|e].
   - unfold settles. cbn [istep i_objs]. destruct (nth_error os i) as [[it|its|]|] eqn:Eo;
       try (exists O; do 2 eexists; split; [|intros; reflexivity]; discriminate).
     apply (itake_settles h os st i CNone HR).
@@ -132,6 +132,7 @@ Proof.
   - apply settles_const; [reflexivity|]. cbn [istep i_objs]. destruct (Nat.eqb i j); [cbn; discriminate|].
     destruct (nth_error os i) as [[it|its|]|]; try (cbn; discriminate).
     destruct (igive (IS h os) j) as [[[ist1 itj]|]|e]; try (cbn; discriminate). apply iapply_nd.
+  - apply settles_const; [reflexivity|cbn; discriminate].
   - apply settles_const; [reflexivity|cbn; discriminate].
 Qed.
 
